@@ -44,6 +44,12 @@ var alphabet = []labelSpec{
 	{name: "[a,a]", labels: []string{"a", "a"}, dup: true},
 	{name: "[a,b,b]", labels: []string{"a", "b", "b"}, dup: true},
 	{name: "[b,b]", labels: []string{"b", "b"}, dup: true},
+	// unsorted lists of equal length over different sets, and three labels
+	{name: "[d,c]", labels: []string{"d", "c"}},
+	{name: "[c,a]", labels: []string{"c", "a"}},
+	{name: "[c,b,a]", labels: []string{"c", "b", "a"}},
+	{name: "[a,c,b]", labels: []string{"a", "c", "b"}},
+	{name: "[d,c,b]", labels: []string{"d", "c", "b"}},
 }
 
 // set is the canonical form of the SET of labels (duplicates removed).
@@ -107,10 +113,9 @@ func mk(spec labelSpec, id int, fail bool, calls *int) age.Recipient {
 
 func main() {
 	r := mon.Start("C11", "exploration")
-	r.Rule = "case = list of 1..4 recipients with a label set each from a 9-element alphabet (absent, empty as [] and as nil, {a}, {b}, {a,b} in both orders, {a,c}, {postquantum}), optionally one recipient whose Wrap fails at a given position; " +
+	r.Rule = "case = list of 1..4 recipients with a label list each from a 17-element alphabet (absent, empty as [] and as nil, {a}, {b}, {a,b} and {a,c} in both orders, {postquantum}, unsorted lists of two and three labels over equal and different sets, lists that repeat a label), optionally one recipient whose Wrap fails at a given position; " +
 		"all lists up to the bound are enumerated; non-trivial = Encrypt was called and its outcome compared with the set-equality model and the destination's byte count; distinct by the assignment"
 	r.Assumptions = []string{
-		"label multisets such as [a,a] are outside the stated quantifier and are not generated",
 		"an empty Write call on refusal is tolerated: the property counts bytes",
 	}
 	r.MinEvals, r.MinDistinct = 1000, 1000
